@@ -48,7 +48,11 @@ structure Outcome where
 
 namespace App
 
+/-- `os.DevNull`: always readable, always empty (what --no-database points the book at) -/
+def devNull : Bytes := ofString "/dev/null"
+
 def readFile (fs : Files) (p : Bytes) : Except Err Bytes :=
+  if p == devNull then .ok [] else
   match fs.find? (·.1 == p) with
   | some kv => .ok kv.2
   | none => .error (.open_ p)
